@@ -76,7 +76,7 @@ Definition verdict (s : store) (t : tract) (p1 p2 : N) : outcome :=
   let v2 := ver0 (files_of s p2) t in
   if (v2 <? v1)%Z then KeepOld else if (v1 <? v2)%Z then KeepNew else DropBoth.
 
-Lemma resolve_one_self : forall s t i1 i2 p1 p2 st,
+Lemma resolve_one_self : forall s (t : tract) i1 i2 p1 p2 st,
     get t (table s) = Some (i1, st) -> i1 <> i2 -> p1 <> p2 ->
     let s' := resolve_one s (t, i1, i2, p1, p2) in
     match verdict s t p1 p2 with
@@ -187,7 +187,7 @@ Proof.
   inversion ND as [|x l Hnin ND']; subst. simpl in Hnin.
   pose proof (resolve_one_self s t i1 i pd1 pd st Gt Hi Hp) as Hres. cbv zeta in Hres.
   destruct Hres as [Hself Hoth].
-  remember (resolve_one s (t, i1, i, pd1, pd)) as s' eqn:Es'.
+  remember (resolve_one s (t, i1, i, pd1, pd)) as s' eqn:Es' in *.
   assert (SL : slots s' = slots s) by (subst s'; apply slots_resolve_one).
   assert (OT : forall t', t' <> t -> get t' (table s') = get t' (table s) /\
                                      forall p, copy s' p t' = copy s p t').
@@ -352,4 +352,175 @@ Qed.
 Theorem wf_run : forall ops s, wf s -> wf (run s ops).
 Proof.
   induction ops as [|o ops IH]; intros s W; simpl; [exact W|]. apply IH. now apply wf_step.
+Qed.
+
+(* ---------- what AddDisk does to one tract ---------- *)
+Lemma cur_view : forall s t,
+    cur s t = match get t (table s) with
+              | Some (d, _) => match get d (slots s) with Some p => copy s p t | None => None end
+              | None => None
+              end.
+Proof.
+  intros. unfold cur, open_existing, lookup, disk_of, copy.
+  destruct (get t (table s)) as [[d st]|]; [|reflexivity].
+  destruct (get d (slots s)) as [p|]; [|reflexivity].
+  now destruct (get t (files_of s p)).
+Qed.
+
+Lemma fold_resolve_other : forall l s t,
+    ~ In t (map ctract l) ->
+    get t (table (fold_left resolve_one l s)) = get t (table s) /\
+    (forall p, copy (fold_left resolve_one l s) p t = copy s p t).
+Proof.
+  induction l as [|c l IH]; intros s t Hnin; simpl; [auto|].
+  simpl in Hnin. assert (H1 : t <> ctract c) by (intros ->; apply Hnin; now left).
+  assert (H2 : ~ In t (map ctract l)) by (intros H; apply Hnin; now right).
+  destruct (IH (resolve_one s c) t H2) as [Ta Ca].
+  destruct (resolve_one_other s c t H1) as [Tb Cb].
+  split; [now rewrite Ta, Tb|]. intros p. now rewrite Ca, Cb.
+Qed.
+
+Lemma slots_fold_resolve : forall l s, slots (fold_left resolve_one l s) = slots s.
+Proof.
+  induction l as [|c l IH]; intros s; simpl; [reflexivity|]. now rewrite IH, slots_resolve_one.
+Qed.
+
+Lemma disks_fold_nil : forall s, fold_left resolve_one [] s = s.
+Proof. reflexivity. Qed.
+
+(* the successful AddDisk, opened up *)
+Lemma add_disk_ok : forall s pd s',
+    add_disk s pd = (s', E_OK) ->
+    exists i, slot_of s pd = None /\ get i (slots s) = None /\
+              dangling s (tids_of (files_of s pd)) = false /\
+              s' = fold_left resolve_one (conflicts_of s i pd (tids_of (files_of s pd)))
+                     (mkstore (disks s) (noalloc s) (put i pd (slots s))
+                              (new_entries s i (tids_of (files_of s pd))) (epoch s) (mgr s)).
+Proof.
+  unfold add_disk. intros s pd s'.
+  destruct (slot_of s pd) eqn:SN; [intros H; inversion H; exfalso; revert H2; ecodes; discriminate|].
+  destruct (free_slot s) as [i|] eqn:F; [|intros H; inversion H; exfalso; revert H2; ecodes; discriminate].
+  destruct (dangling s _) eqn:DG; [intros H; inversion H; exfalso; revert H2; ecodes; discriminate|].
+  intros H; inversion H. exists i. apply first_free_spec in F. auto.
+Qed.
+
+(* AddDisk finds a second copy of a served tract: the strictly older copy is deleted, the newer one is
+   served unchanged; equal versions (errors count as 0): both deleted, the tract is no longer served *)
+Theorem add_disk_conflict : forall s pd s' t pd1 f1 f2,
+    wf s -> add_disk s pd = (s', E_OK) ->
+    open_existing s t = Op_ok pd1 f1 -> copy s pd t = Some f2 ->
+    pd1 <> pd /\
+    match verdict s t pd1 pd with
+    | KeepOld => cur s' t = Some f1 /\ copy s' pd t = None /\ copy s' pd1 t = Some f1
+    | KeepNew => cur s' t = Some f2 /\ copy s' pd1 t = None /\ copy s' pd t = Some f2
+    | DropBoth => lookup s' t = None /\ cur s' t = None /\ copy s' pd1 t = None /\ copy s' pd t = None
+    end.
+Proof.
+  intros s pd s' t pd1 f1 f2 W HA HO HC.
+  destruct (add_disk_ok s pd s' HA) as (i & SN & Fi & DG & ->).
+  apply open_existing_ok in HO. destruct HO as (i1 & st & L & D & C1).
+  unfold lookup in L. unfold disk_of in D.
+  assert (Hp : pd1 <> pd) by (intros ->; eapply slot_of_none; eauto).
+  split; [exact Hp|].
+  assert (Hi : i1 <> i) by congruence.
+  set (tids := tids_of (files_of s pd)) in *.
+  set (s1 := mkstore (disks s) (noalloc s) (put i pd (slots s)) (new_entries s i tids) (epoch s) (mgr s)).
+  assert (Ht : In t tids) by (apply In_tids_of; unfold copy in HC; congruence).
+  set (c0 := ((t, i1, i, pd1, pd) : conflict)).
+  assert (Hc0 : In c0 (conflicts_of s i pd tids)).
+  { apply In_conflicts_of. exists t, i1, st, pd1. auto. }
+  assert (ND : NoDup (map ctract (conflicts_of s i pd tids))) by (apply NoDup_conflicts_of, NoDup_nodup).
+  destruct (in_split _ _ Hc0) as (l1 & l2 & Hsplit). rewrite Hsplit in *.
+  rewrite map_app in ND. simpl in ND.
+  assert (N1 : ~ In t (map ctract l1)).
+  { intros H. apply NoDup_remove_2 in ND. apply ND. apply in_or_app. now left. }
+  assert (N2 : ~ In t (map ctract l2)).
+  { intros H. apply NoDup_remove_2 in ND. apply ND. apply in_or_app. now right. }
+  rewrite fold_left_app. cbn [fold_left].
+  set (sm := fold_left resolve_one l1 s1).
+  destruct (fold_resolve_other l1 s1 t N1) as [Tm Cm]. fold sm in Tm, Cm.
+  assert (Tm' : get t (table sm) = Some (i1, st)).
+  { rewrite Tm. unfold s1. simpl. rewrite get_new_entries, L. reflexivity. }
+  assert (Cm' : forall p, copy sm p t = copy s p t) by (intros; rewrite Cm; reflexivity).
+  assert (V : verdict sm t pd1 pd = verdict s t pd1 pd).
+  { unfold verdict, ver0. fold (copy sm pd1 t) (copy sm pd t) (copy s pd1 t) (copy s pd t).
+    now rewrite !Cm'. }
+  pose proof (resolve_one_self sm t i1 i pd1 pd st Tm' Hi Hp) as Hres. cbv zeta in Hres.
+  destruct Hres as [Hself _]. fold c0 in Hself. rewrite V in Hself.
+  set (sr := resolve_one sm c0) in *.
+  destruct (fold_resolve_other l2 sr t N2) as [Tf Cf].
+  assert (SL : slots (fold_left resolve_one l2 sr) = put i pd (slots s)).
+  { rewrite slots_fold_resolve. unfold sr. rewrite slots_resolve_one. unfold sm.
+    rewrite slots_fold_resolve. reflexivity. }
+  change (fold_left resolve_one l2 (resolve_one (fold_left resolve_one l1 s1) c0))
+    with (fold_left resolve_one l2 sr).
+  destruct (verdict s t pd1 pd); destruct Hself as (Ha & Hb & Hc).
+  - rewrite cur_view, Tf, Ha, SL, get_put_ne by exact Hi. rewrite D.
+    rewrite !Cf, Hb, Hc, Cm', C1. auto.
+  - rewrite cur_view, Tf, Ha, SL, get_put_eq.
+    rewrite !Cf, Hb, Hc, Cm', HC. auto.
+  - unfold lookup. rewrite cur_view, Tf, Ha, !Cf, Hb, Hc. auto.
+Qed.
+
+(* AddDisk of a disk none of whose tracts is in the table: nothing is deleted, its copies are served *)
+Lemma conflicts_of_nil : forall s i pd tids,
+    (forall t, In t tids -> get t (table s) = None) -> conflicts_of s i pd tids = [].
+Proof.
+  intros s i pd tids H. unfold conflicts_of.
+  induction tids as [|t rest IH]; simpl; [reflexivity|].
+  rewrite (H t (or_introl eq_refl)). simpl. apply IH. intros. apply H. now right.
+Qed.
+
+Theorem add_disk_no_conflict : forall s pd s',
+    wf s -> add_disk s pd = (s', E_OK) ->
+    (forall t, copy s pd t <> None -> lookup s t = None) ->
+    disks s' = disks s /\
+    forall t, cur s' t = match copy s pd t with Some f => Some f | None => cur s t end.
+Proof.
+  intros s pd s' W HA HN.
+  destruct (add_disk_ok s pd s' HA) as (i & SN & Fi & DG & ->).
+  rewrite conflicts_of_nil by (intros t Ht; apply In_tids_of in Ht; now apply HN).
+  simpl. split; [reflexivity|]. intros t. rewrite cur_view. simpl. rewrite get_new_entries.
+  change (copy (mkstore (disks s) (noalloc s) (put i pd (slots s))
+                        (new_entries s i (tids_of (files_of s pd))) (epoch s) (mgr s)))
+    with (copy s).
+  destruct (copy s pd t) as [f|] eqn:C.
+  - assert (L : get t (table s) = None) by (apply HN; congruence). rewrite L.
+    assert (M : memN t (tids_of (files_of s pd)) = true).
+    { apply memN_In, In_tids_of. unfold copy in C. congruence. }
+    rewrite M, get_put_eq. exact C.
+  - rewrite cur_view. destruct (get t (table s)) as [[d st]|] eqn:G.
+    + destruct W as (_ & A & _). destruct (A t d st G) as (p & Gp & Cp).
+      assert (d <> i) by congruence. rewrite get_put_ne by assumption. reflexivity.
+    + assert (M : memN t (tids_of (files_of s pd)) = false).
+      { destruct (memN t _) eqn:M; [|reflexivity]. apply memN_In, In_tids_of in M. unfold copy in C. congruence. }
+      now rewrite M.
+Qed.
+
+(* RemoveDisk followed by AddDisk of the same disk: every file and the whole served view are as before *)
+Theorem reattach_preserves : forall s pd s2,
+    wf s -> slot_of s pd <> None ->
+    add_disk (fst (remove_disk s pd)) pd = (s2, E_OK) ->
+    disks s2 = disks s /\ forall t, cur s2 t = cur s t.
+Proof.
+  intros s pd s2 W HS HA. pose proof W as (I & A & B).
+  pose proof (wf_remove_disk s pd W) as W1.
+  unfold remove_disk in *. destruct (slot_of s pd) as [i|] eqn:S; [|congruence]. simpl in *.
+  apply slot_of_some in S.
+  set (s1 := mkstore (disks s) (noalloc s) (del i (slots s))
+                     (filter (fun e => negb (on_slot s i (fst e))) (table s)) (epoch s) (mgr s)) in *.
+  assert (CP : forall p t, copy s1 p t = copy s p t) by reflexivity.
+  assert (HN : forall t, copy s1 pd t <> None -> lookup s1 t = None).
+  { intros t C. rewrite CP in C. destruct (B i pd t S C) as [st Hs].
+    unfold lookup, s1. simpl. rewrite get_table_remove_disk, Hs, N.eqb_refl. reflexivity. }
+  destruct (add_disk_no_conflict s1 pd s2 W1 HA HN) as [D V].
+  split; [exact D|]. intros t. rewrite V. change (copy s1 pd t) with (copy s pd t).
+  destruct (copy s pd t) as [f|] eqn:C.
+  - assert (Cn : copy s pd t <> None) by congruence.
+    destruct (B i pd t S Cn) as [st Hs]. rewrite cur_view, Hs, S. now symmetry.
+  - rewrite !cur_view. unfold s1 at 1. simpl. rewrite get_table_remove_disk.
+    destruct (get t (table s)) as [[d st]|] eqn:G; [|reflexivity].
+    destruct (d =? i) eqn:E.
+    + apply N.eqb_eq in E. subst d. rewrite S. now rewrite C.
+    + unfold s1. simpl. rewrite get_del, E. reflexivity.
 Qed.
